@@ -43,8 +43,9 @@ def run(chk, tier, scale=1.0):
             if p == "C03":
                 chk.violation(Violation(p, rule, sig, text, wit))
     chk.require("burst_verdicts_at_quiescence", 500 * min(1.0, scale))
+    chk.require("burst_runs_on_a_shared_socket", 3 * min(1.0, scale))
     chk.rule = ("bursts of 40-700 clients whose lines (a few bytes each) arrive in one write on the unhooked channel: when the daemon has drained its input and sleeps in "
-                "epoll_wait (read from /proc and the pipe), every one of them has its verdict; "
+                "epoll_wait (read from /proc and the pipe), every one of them has its verdict - half of the bursts over ONE socket that is the daemon's standard input and output, with a reader who falls behind; "
                 "the C02 workload (all 120 arrival orders x service tables x reply policies x timeout / hurry-up positions x passwords) plus random multi-client "
                 "histories weighted towards late, duplicate and unexpected replies, repeated passwords, unlinked notices and timeouts; after EVERY input line the monitor "
                 "asks of every open client: all required data (or H), no query unanswered (or timeout expired and no query sent since), no +! without account - "
@@ -60,13 +61,14 @@ def run(chk, tier, scale=1.0):
 
 
 def _burst_jobs(b, chk, tier, scale):
-    return [dict(build=b, seed=chk.seed * 977 + k, n=[40, 120, 300, 700][k % 4], service=(k % 3 == 1), after=(k % 2 == 1)) for k in range(int((12 if tier == "quick" else 200) * scale) or 1)]
+    return [dict(build=b, seed=chk.seed * 977 + k, n=[40, 120, 300, 700][k % 4], service=(k % 3 == 1), after=(k % 2 == 1), sock=(k % 4 in (1, 2)))
+            for k in range(int((12 if tier == "quick" else 200) * scale) or 1)]
 
 
 def replay(chk, rep):
     w = rep["witness"]
     if w.get("burst"):
-        r = pcommon.burst_worker(dict(build=prun.build_daemon("c03-replay"), seed=w["seed"], n=w["n"], service=w["service"], after=w.get("after")))
+        r = pcommon.burst_worker(dict(build=prun.build_daemon("c03-replay"), seed=w["seed"], n=w["n"], service=w["service"], after=w.get("after"), sock=w.get("sock")))
         for v in r["viol"]:
             print(v[3])
         return 1 if r["viol"] else 0
